@@ -998,6 +998,28 @@ fn grid_c09(rng: &mut Rng, stride: usize, off: usize) -> Vec<Group> {
             }
         }
     }
+    // rationals closer to each other than the resolution of a double (components near 2^31)
+    let m = (1i64 << 31) - 1;
+    let close: Vec<Val> = vec![rat(m - 3, m - 2), rat(m - 2, m - 1), rat(m - 1, m), rat(m - 4, m - 2), rat(1, 3), rat(715827882, m),
+                               rat(715827883, m), rat(-(m - 2), m - 1), rat(-(m - 1), m), rat(m, m - 1), rat(m - 1, m - 2)];
+    for a in close.iter() {
+        for b in close.iter() {
+            for op in ops {
+                push(&mut out, rng, op, vec![a.clone(), b.clone()], 2);
+            }
+            push(&mut out, rng, "max", vec![a.clone(), b.clone()], 2);
+            push(&mut out, rng, "min", vec![a.clone(), b.clone()], 2);
+        }
+    }
+    // min / max of an exact value no double equals and a double: the result is one of the arguments
+    for e in exacts.iter().chain(close.iter()) {
+        for d in [0x3ff8000000000000u64, 0xbff8000000000000, 0x43e0000000000000, 0xc3e0000000000000, 0] {
+            for op in ["min", "max"] {
+                push(&mut out, rng, op, vec![e.clone(), Val::Flo(d)], 2);
+                push(&mut out, rng, op, vec![Val::Flo(d), e.clone()], 2);
+            }
+        }
+    }
     // sign predicates and one-argument comparisons
     let mut ones: Vec<Val> = small.clone();
     for b in [0u64, 1 << 63, 1, (1 << 63) | 1, 0x0010000000000000, 0x8010000000000000, 0x3c80000000000000, 0xbc80000000000000,
